@@ -308,6 +308,50 @@ def shard_main(mod, tier, seed, shard, nshards, outpath):
         json.dump(col.to_json(), f)
 
 
+def run_fuzz(pid, spec, seed):
+    """atheris campaign(s) over the property's own strategy and oracle (vlib/fuzz.py), one subprocess per worker.
+    Returns (info for the evidence file, result parts to merge).  A campaign that cannot run (atheris missing) or
+    hits its wall-clock budget is reported as such and never counts as a violation."""
+    deps = os.path.join(ROOT, '.deps')
+    probe = subprocess.run([sys.executable, '-c', 'import sys; sys.path.append(%r); import atheris' % deps],
+                           capture_output=True)
+    if probe.returncode != 0:
+        return {'status': 'skipped: atheris is not installed (setup_cmd installs it into .deps)'}, []
+    workers = int(spec.get('workers', 4))
+    runs = int(spec.get('runs', 20000))
+    budget = int(spec.get('budget_s', 900))
+    tmp = tempfile.mkdtemp(prefix='verif_fuzz_%s_' % pid)
+    parts, infos = [], []
+    try:
+        procs = []
+        for i in range(workers):
+            outp = os.path.join(tmp, 'fuzz%d.json' % i)
+            cmd = [sys.executable, os.path.join(ROOT, 'vlib', 'fuzz.py'), pid, outp, str(runs // workers), str(seed * 100 + i + 1)]
+            procs.append((subprocess.Popen(cmd, cwd=ROOT, stdout=subprocess.DEVNULL, stderr=subprocess.DEVNULL), outp))
+        deadline = time.time() + budget
+        for p, outp in procs:
+            try:
+                p.wait(timeout=max(1.0, deadline - time.time()))
+                ended = 'exit %s' % p.returncode
+            except subprocess.TimeoutExpired:
+                p.kill()
+                p.wait()
+                ended = 'stopped at the %d s budget (inconclusive beyond what was executed)' % budget
+            if os.path.exists(outp):
+                with open(outp) as f:
+                    d = json.load(f)
+                fi = d.pop('fuzz', {})
+                fi['ended'] = ended
+                infos.append(fi)
+                parts.append(d)
+            else:
+                infos.append({'ended': ended, 'executions': 0})
+    finally:
+        shutil.rmtree(tmp, ignore_errors=True)
+    return {'status': 'ran', 'engine': 'atheris (libFuzzer) through hypothesis fuzz_one_input; oracle = check(case)',
+            'workers': infos, 'executions': sum(i.get('executions', 0) for i in infos)}, parts
+
+
 def main(argv=None):
     ap = argparse.ArgumentParser()
     ap.add_argument('prop')
@@ -395,6 +439,12 @@ def main(argv=None):
         finally:
             shutil.rmtree(tmp, ignore_errors=True)
 
+    # --- coverage-guided extra (thorough tier, properties that declare FUZZ) ---------------
+    fuzz_info = None
+    if args.tier == 'thorough' and getattr(mod, 'FUZZ', None) and not os.environ.get('VERIF_NO_FUZZ'):
+        fuzz_info, fparts = run_fuzz(pid, mod.FUZZ, seed)
+        parts.extend(fparts)
+
     m = merge(parts)
     wall_gen = time.time() - t0
 
@@ -470,6 +520,7 @@ def main(argv=None):
                                     'known': match_known(known, pid, l) is not None}
                                 for l, v in sorted(m['viol'].items())},
             'generator_health': health,
+            'fuzz_campaign': fuzz_info,
         },
         'assumptions': list(mod.ASSUMPTIONS),
         'wall_s': round(time.time() - t0, 2),
